@@ -6,6 +6,16 @@ ALL = ["C%02d" % i for i in range(1, 21)]
 
 # id -> dict(level, text, note, technique, design, engine, thorough=True)
 CHECKS = {
+ "C12": dict(level="fault_enumeration",
+  text="Crash-point enumeration with real process death: for each disk-backed history (first load accepted / rejected / truncated, refresh accepted / rejected / fetch failure, two refreshes) a child process runs it and SIGKILLs itself at effect point k, for EVERY k (every os / LevelDB shim call of the history, plus after-effect points of rename / removeall); a second child restarts a fresh strict validator over the crashed work_dir with the origin down and reports the verdict vector of 6 probes and the directory listing. Oracle: loaded only with exactly the vector of a complete accepted CRL of that history, no crl_*_tmp after Provision, no store directory removed.",
+  note="Crash = process death (completed writes survive, nothing torn), as the property states. goleveldb's internal file operations are not individually crash points (only its API calls).",
+  technique="exhaustive crash-point enumeration (fault injection at every effect point, SIGKILL + restart) on the implementation",
+  design="DESIGN.md §4 C12, §3 E7", engine="effect-point shims (vos/vleveldb) + child processes"),
+ "C18": dict(level="model_checking",
+  text="Lock-step explicit-state exploration of MapStore, LevelDbStore and a reference model (Go map + structs): all operation sequences over a 23-operation alphabet (start, 12 inserts, ext-meta, signer, locations, replace-with 3 pre-filled stores, close+reopen) to depth 3 (quick) / 4 (thorough), deduplicated on the model state; after every operation ALL getters (6 lookups incl. returned entry, meta, ext-meta, signer, locations, IsEmpty; error-vs-value shape) of both backends are compared with the model. Plus a value-shape round-trip sweep (non-ASCII / multi-valued / empty names, zero / negative / 2^159 serials, critical and empty extensions, UTC and Generalized dates, location shapes).",
+  note="Times restricted to what a parsed CRL can contain (update times before 2050). One known finding: MapStore.IsEmpty (pinned by the repository's own test).",
+  technique="explicit-state model checking: lock-step BFS over operation sequences against a reference model",
+  design="DESIGN.md §4 C18", engine="history explorer (fw.BFS)"),
  "C01": dict(level="exploration",
   text="Every listed serial of every scenario is probed with its own certificate through the real caddy module (reader -> store -> repository -> VerifyClientCertificate): A: all configurations source(3) x backend(2) x mode(4) x OCSP answer(3) x encoding with two list shapes; B: all list shapes N(1,2,3,5,40,300) x serial form(12) x entry extensions(3) x date form(2) with two configurations; cross-location cases; thorough adds a 100000-entry CRL on both backends with every position probed. Vacuity guard: an unlisted certificate must be accepted first.",
   note="Bounded shape alphabet; the 10^6 scale of the statement is extrapolated from the per-entry loop being the same code for every entry.",
